@@ -5,6 +5,7 @@ import (
 	"math/big"
 	"sort"
 	"strings"
+	"time"
 
 	disputetypes "github.com/tellor-io/layer/x/dispute/types"
 	oracletypes "github.com/tellor-io/layer/x/oracle/types"
@@ -20,6 +21,7 @@ import (
 // dispute-related clauses of C11 (slashing at funding), C12 (lifecycle, votes, tally) and C13 (settlement).
 // Which property's violations count is selected by Decide (the others are advisory).
 type DisputeMonitor struct {
+	firstSeen map[uint64]time.Time // block time at which a dispute id was first observed
 	BaseMonitor
 	st *Stats
 
@@ -147,11 +149,28 @@ func (m *DisputeMonitor) observe(c *Chain, ctx sdk.Context, where string) (creat
 		ids = append(ids, id)
 	}
 	sort.Slice(ids, func(i, j int) bool { return ids[i] < ids[j] })
+	if where == "beginblock" {
+		// the automatic expiry: once a block's time lies more than one day after the proposal an under-funded dispute has
+		// failed by the end of that block's BeginBlock, however many partial payments it received
+		for _, id := range ids {
+			if t0, ok := m.firstSeen[id]; ok && ds[id].DisputeStatus == disputetypes.Prevote {
+				m.st.Count("c11.expiry.evals")
+				if ctx.BlockTime().After(t0.Add(24 * time.Hour)) {
+					m.st.Bucket("c11|underfunded-after-one-day")
+					c.Violate("C11", "dispute", "underfunded-dispute-still-open-more-than-one-day-after-the-proposal", map[string]interface{}{"id": id, "proposed": t0.String(), "now": ctx.BlockTime().String(), "paid": ds[id].FeeTotal.String(), "fee": ds[id].SlashAmount.String()})
+				}
+			}
+		}
+	}
 	for _, id := range ids {
 		d := ds[id]
 		old, known := m.status[id]
 		if !known {
 			created = append(created, id)
+			if m.firstSeen == nil {
+				m.firstSeen = map[uint64]time.Time{}
+			}
+			m.firstSeen[id] = ctx.BlockTime()
 			m.st.Bucket("c12|created|status=%s|round=%d", d.DisputeStatus, minInt(int(d.DisputeRound), 4))
 			if d.DisputeStatus != disputetypes.Prevote && d.DisputeStatus != disputetypes.Voting {
 				c.Violate("C12", "dispute", "dispute-created-in-status:"+d.DisputeStatus.String(), map[string]interface{}{"id": id})
@@ -197,6 +216,13 @@ func (m *DisputeMonitor) observe(c *Chain, ctx sdk.Context, where string) (creat
 			}
 			if old == disputetypes.Prevote && d.DisputeStatus == disputetypes.Voting {
 				fundedNow = append(fundedNow, id)
+				// "a dispute whose fee is not completed within one day expires without any slashing"
+				if t0, ok := m.firstSeen[id]; ok {
+					m.st.Bucket("c11|fee-completed|after-more-than-12h=%v", ctx.BlockTime().Sub(t0) > 12*time.Hour)
+					if ctx.BlockTime().After(t0.Add(24 * time.Hour)) {
+						c.Violate("C11", "dispute", "fee-completed-and-reporter-slashed-more-than-one-day-after-the-proposal", map[string]interface{}{"id": id, "proposed": t0.String(), "now": ctx.BlockTime().String()})
+					}
+				}
 			}
 			if d.DisputeStatus == disputetypes.Failed {
 				// expired unfunded: must never have touched stake
@@ -922,7 +948,13 @@ func (m *DisputeMonitor) checkExecutionAmounts(c *Chain, ctx sdk.Context, d disp
 	case "invalid":
 		want = burn.Add(slash)
 	case "against":
-		want = burn.Add(slash).Add(slash.Sub(d.BurnAmount))
+		// the reporter's backers get their stake back plus what is left of the first round's fee after the burn amount;
+		// once the accumulated round fees exceed that fee nothing is left of it (never a negative amount: F34)
+		rest := slash.Sub(d.BurnAmount)
+		if rest.IsNegative() {
+			rest = math.ZeroInt()
+		}
+		want = burn.Add(slash).Add(rest)
 	default:
 		return
 	}
